@@ -149,6 +149,30 @@ def generate(rng, tier, corpus_lines):
     lines = []   # (line, meta)
     for l in corpus_lines:
         lines.append((l, {"src": "corpus"}))
+    # exhaustive small lattices: every multiset of intervals with endpoints in {0..m} (half-integers), every tie configuration
+    import itertools
+    m, kmax = (4, 4) if tier == "quick" else (5, 4)
+    ivs = [(a * 8, b * 8) for a in range(m + 1) for b in range(a + 1, m + 1)]
+    xpts = " ".join(map(str, range(-8, m * 8 + 9, 2)))
+    for k in range(1, kmax + 1):
+        for D in itertools.combinations_with_replacement(ivs, k):
+            D = list(D)
+            rng.shuffle(D)
+            lines.append(("X %d | %s | 0 | %s" % (DEN, dstr(D), xpts), {"src": "X:exhaustive", "n": k}))
+    if tier == "thorough":
+        ivs4 = [(a * 8, b * 8) for a in range(5) for b in range(a + 1, 5)]
+        for D in itertools.combinations_with_replacement(ivs4, 5):
+            lines.append(("X %d | %s | 0 | %s" % (DEN, dstr(list(D)), xpts), {"src": "X:exhaustive", "n": 5}))
+    # every ordered tuple of up to 3 aligned intervals on an 8-step grid, with and without a level bound
+    givs = [(4 * i, 4 * j) for i in range(5) for j in range(i + 1, 5)]
+    gpts = " ".join(map(str, grid_points(8, 2, 0)))
+    for k in range(1, 4):
+        tuples = itertools.product(givs, repeat=k) if tier == "thorough" else itertools.combinations_with_replacement(givs, k)
+        for D in tuples:
+            for nlev in ((0, 1, 2, 3) if tier == "thorough" else (0, 2)):
+                if nlev > k:
+                    continue
+                lines.append(("G %d | %s | 0 16 8 %d | %s" % (DEN, dstr(list(D)), nlev, gpts), {"src": "G:exhaustive" + (":nlev" if nlev else ""), "n": k}))
     nX, nE, nT, nG, nH = (2000, 1800, 700, 1800, 600) if tier == "quick" else (36000, 27000, 9000, 27000, 9000)
     for _ in range(nX):
         kind, D = gen_diagram(rng, tier, allow_degenerate=True)
@@ -472,6 +496,9 @@ def check(ctx, replay=None):
     import random as _r
     idx = sorted(_r.Random(ctx.seed).sample(range(len(lines)), min(8, len(lines))))
     res.samples = [{"line": lines[i][0][:400]} for i in idx]
+    res.notes.append("exhaustive sub-domains this run: every multiset of up to %s intervals with endpoints in {0,1/2,..,%s/2} (exact form, all levels, "
+                     "all quarter points); every %s of up to 3 grid-aligned intervals on the grid [0,1]/8 with level bounds %s"
+                     % (("4", "4", "multiset", "{none,2}") if ctx.tier == "quick" else ("4 (5 on {0..2})", "5", "ordered tuple", "{none,1,2,3}")))
     res.notes.append("float comparisons: L2 distances after exact squaring (relative 2^-40); inner products off the 3-divisible lattice "
                      "(absolute 1e-7; the C++ divides by 3); E lines whose abs() creates a non-dyadic zero crossing (relative 1e-9); everything else exact")
     return core.finish(ctx, None, res, TRUSTED, ASSUMPTIONS, LEVEL,
